@@ -115,3 +115,62 @@ package blockstore
 //@     call[Seeker.Seek#1] assert next_section_start [C07]: arg1 == wrap_s64(here + wrap_s64(length)) && arg2 == 0 && here == athead(0, pos(rdr)) - sbase(rdr) + vsize(length)
 //@     ensures released [C08]: held(b.mu) == 0
 //@   end
+
+// Lock discipline of the remaining public methods (C08): each takes ronly.mu itself (so must be entered without it:
+// sync.RWMutex is not reentrant), releases it on every path, and touches guarded state only in between — the
+// latter through the guard:* obligations generated from the vocabulary's guarded / guardeduse declarations.
+
+//@ func (*ReadWrite).Put
+//@   requires ri: wn(b.dataWriter) == pend(b)
+//@   requires writer: b.dataWriter != nil && objinv(b.dataWriter)
+//@   requires unlocked [C08]: held(b.ronly.mu) == 0
+//@   ensures released [C08]: held(b.ronly.mu) == 0
+
+//@ func (*ReadWrite).Has
+//@   requires unlocked [C08]: held(b.ronly.mu) == 0
+//@   call[store.Has#0] assert under_write_lock [C08]: held(b.ronly.mu) == 2
+//@   call[store.Has#0] assert options [C04,C07]: ref(arg0) == ref(b.idx) && arg1 == key && arg2 == b.opts.MaxIndexCidSize && arg3 == b.opts.StoreIdentityCIDs && arg4 == b.opts.BlockstoreAllowDuplicatePuts && arg5 == b.opts.BlockstoreUseWholeCIDs
+//@   ensures closed_err [C04]: old(b.ronly.closed) ==> err == errClosed && !result0
+//@   ensures released [C08]: held(b.ronly.mu) == 0
+
+//@ func (*ReadWrite).Get
+//@   requires unlocked [C08]: held(b.ronly.mu) == 0
+//@   ensures released [C08]: held(b.ronly.mu) == 0
+
+//@ func (*ReadWrite).GetSize
+//@   requires unlocked [C08]: held(b.ronly.mu) == 0
+//@   ensures released [C08]: held(b.ronly.mu) == 0
+
+//@ func (*ReadWrite).Finalize
+//@   requires writer: b.opts.WriteAsCarV1 || b.dataWriter != nil
+//@   requires unlocked [C08]: held(b.ronly.mu) == 0
+//@   ensures released [C08]: held(b.ronly.mu) == 0
+
+//@ func (*ReadWrite).FinalizeReadOnly
+//@   requires writer: b.opts.WriteAsCarV1 || b.dataWriter != nil
+//@   requires unlocked [C08]: held(b.ronly.mu) == 0
+//@   ensures released [C08]: held(b.ronly.mu) == 0
+
+//@ func (*ReadWrite).Close
+//@   requires unlocked [C08]: held(b.ronly.mu) == 0
+//@   ensures released [C08]: held(b.ronly.mu) == 0
+
+//@ func (*ReadWrite).Discard
+//@   requires unlocked [C08]: held(b.ronly.mu) == 0
+//@   ensures released [C08]: held(b.ronly.mu) == 0
+
+//@ func (*ReadWrite).closeWithoutMutex
+//@   requires write_locked [C08]: held(b.ronly.mu) == 2
+//@   ensures still_locked [C08]: held(b.ronly.mu) == 2
+//@   ensures closed [C04]: err == nil ==> b.ronly.closed
+//@   ensures needs_finalize [C04]: !b.opts.WriteAsCarV1 && !old(b.finalized) ==> err != nil && !b.ronly.closed == !old(b.ronly.closed)
+
+//@ func (*ReadOnly).Close
+//@   requires unlocked [C08]: held(b.mu) == 0
+//@   ensures released [C08]: held(b.mu) == 0
+//@   ensures closed [C04]: b.closed
+
+//@ func (*ReadOnly).closeWithoutMutex
+//@   requires write_locked [C08]: held(b.mu) == 2
+//@   ensures still_locked [C08]: held(b.mu) == 2
+//@   ensures closed [C04]: b.closed
